@@ -24,7 +24,8 @@ Fixpoint triples (l : list Z) : list (Z * Z * Z) :=
      [6; ud; sod; us] from_datetime | [7; ud; sod; us] from_date_time (deprecated alias)
    ops: 1 :: octets read_from_raw(bytes) | 2 :: octets read_from_raw(bytearray), the caller's
      buffer overwritten afterwards | [3; d; s; us] += timedelta | [4] read_from_raw(self.pack())
-     | [5] pack()
+     | [5] pack() | 6 :: octets read_from_raw(the SAME bytearray object handed over before, edited in
+     place by the caller since; octets = its present content)
    after the construction and after EVERY op: result line, fields, Unix seconds, datetime
    (empty line = no _datetime attribute) *)
 (* inside a history the exception class is reported as the harness compares it: the ValueError
@@ -51,6 +52,7 @@ Definition cobj_op_of (l : list Z) : option cobj_op :=
   | 3 :: d :: s :: u :: _ => Some (OAdd d s u)
   | 4 :: _ => Some OReadOwn
   | 5 :: _ => Some OPack
+  | 6 :: b => Some (ORead b)
   | _ => None
   end.
 Fixpoint cobj_history (o : cobj) (ops : list (list Z)) : args :=
